@@ -51,6 +51,7 @@ typedef struct Thread {
     /* call-context hash maintained by __tsan_func_entry/exit */
     unsigned long ctx_stack[64]; int ctx_depth;
     long nops;
+    uint64_t ch;                   /* causal-history hash: everything this thread has observed so far (order sensitive) */
     long blocked_count;            /* times found not-enabled (reset by mc_mark) */
     long barriers;
     long long_waits;               /* condition waits entered + times blocked on a pthread rwlock (reset by mc_mark) */
@@ -61,7 +62,7 @@ typedef struct Thread {
     int woken;                     /* for cond waiters: set by signal/broadcast/spurious */
 } Thread;
 
-typedef struct Choice { uint8_t n, chosen; uint8_t cost[MAXALT]; uint32_t fp; } Choice;
+typedef struct Choice { uint8_t n, chosen; uint8_t cost[MAXALT]; uint64_t fp; } Choice;
 
 /* control block shared between the explorer (parent) and one execution (child) */
 typedef struct Ctl {
@@ -99,8 +100,14 @@ int  op_enabled(Thread *t);
 void thread_finish_current(void);
 const char *addr_name(const void *addr, char *buf, size_t sz);
 const char *pc_name(const void *pc, char *buf, size_t sz);
-uint32_t model_fingerprint(void);
+uint64_t model_fingerprint(void);
 uint32_t pthread_model_fp(void);
+/* causal-history hashing (state fingerprints for pruning) */
+uint64_t ch_mix(uint64_t a, uint64_t b);
+void ch_note(uint64_t v);                 /* the current thread observed v (result of a call, value read) */
+void ch_observe(void *obj, uint64_t v);   /* ... observed v at obj: mixes the object's history */
+void ch_publish(void *obj, uint64_t v);   /* the current thread changed obj (value v): object's history absorbs the thread's */
+extern uint64_t ch_objects_acc;           /* order-independent accumulator over all object histories */
 void pthread_model_describe_block(Thread *t, char *buf, size_t sz);
 void run_key_destructors(int tid);
 
